@@ -383,3 +383,75 @@ META = {
     'assumptions': ['outside this claim: the behaviour of the emitted Go (json_escape_string = fmt.Sprintf("%q"), number formatting), JSON escaping of strings, composite and user-defined field types beyond "a .to_json() / .to_string() method call is generated", generic definitions beyond "rejected with a derive diagnostic"'],
     'trusted_base': ['mirsym MIR interpreter', 'library models listed per obligation', 'z3', 'reference evaluator for the generated expression subset (40 lines)', "Python's json parser as the JSON grammar"],
 }
+
+# ----------------------------------------------------------------------------- O18.3 the string leaf of to_json: what the runtime helper json_escape_string prints is a JSON string
+def ob_json_escape(r, tier, seed):
+    W = e2.fresh_world(CRATES); tt = W.tt
+    GFN = tt.find_adt(['goast', 'Fn'], 'compiler'); GE = tt.find_adt(['goast', 'Expr'], 'compiler'); GST = tt.find_adt(['goast', 'Stmt'], 'compiler')
+    r.bounds = 'go::runtime::json_escape_string (MIR of the current tree) is executed; the Go function it builds must be `return fmt.Sprintf(<verb>, s)`; for that verb a z3 query ranges over every Unicode scalar value c (0 .. 0x10FFFF without surrogates) and over whether unicode.IsPrint(c) holds (free for c >= 0x80, fixed for ASCII)'
+    r.assumptions = ['reference semantics of Go\'s fmt verbs %q / %+q on one character, written from the documentation of strconv.Quote / QuoteToASCII (20 lines): `"` and `\\\\` get a backslash; printable characters (%+q: printable ASCII only) are copied; \\a \\b \\f \\n \\r \\t \\v; other characters below 0x20 and 0x7f as \\xNN; characters above 0xFFFF as \\UXXXXXXXX; the rest as \\uXXXX',
+                     'JSON (RFC 8259): a string may contain any character >= 0x20 except `"` and `\\\\` literally, and the escapes \\" \\\\ \\/ \\b \\f \\n \\r \\t \\uXXXX only',
+                     'oracle: for every character the text printed for it is a legal piece of a JSON string; there is no Go toolchain to run the helper, so a counterexample is replayed by (1) finding the verb in the Go text the real CLI emits for a derive(ToJson) program and (2) the reference semantics above on the witness character, parsed with Python\'s JSON parser',
+                     'any other verb or body shape is inconclusive (exit 2)']
+    def entry(ex):
+        fn = ex.call('go::runtime::json_escape_string', [])
+        fd = dict(zip([x[0] for x in GFN.variants[0].fields], fn.fields)); stmts = fd['body'].fields[0].items
+        if len(stmts) != 1 or GST.variants[stmts[0].idx].name != 'Return' or stmts[0].fields[0].idx != 1: raise Unsupported('json_escape_string: body is not a single return')
+        e = stmts[0].fields[0].fields[0]
+        if GE.variants[e.idx].name != 'Call': raise Unsupported('json_escape_string: not a call')
+        ef = dict(zip([x[0] for x in GE.variants[e.idx].fields], e.fields)); f_ = unbox(ef['func'])
+        fname = ms.pystr(dict(zip([x[0] for x in GE.variants[f_.idx].fields], f_.fields))['name']) if GE.variants[f_.idx].name == 'Var' else '?'
+        args = ef['args'].items
+        if fname != 'fmt.Sprintf' or len(args) != 2 or GE.variants[args[0].idx].name != 'String' or GE.variants[args[1].idx].name != 'Var': raise Unsupported('json_escape_string: not fmt.Sprintf(<literal>, s): %s' % fname)
+        return ms.pystr(dict(zip([x[0] for x in GE.variants[args[0].idx].fields], args[0].fields))['value'])
+    res = e2.explore(r, W, entry, [])
+    if len(res) != 1 or res[0].kind != 'ok': raise Unsupported('json_escape_string: %s' % (res[0].value if res else 'no path'))
+    verb = res[0].value; r.cases += 1; r.nontrivial += 1
+    if verb not in ('%q', '%+q'): raise Unsupported('no reference semantics for the verb %r' % verb)
+    c = z3.Int('c'); p = z3.Bool('isprint')
+    dom = [c >= 0, c <= 0x10FFFF, z3.Or(c < 0xD800, c > 0xDFFF), z3.Implies(c < 0x80, p == z3.And(c >= 0x20, c <= 0x7e))]
+    copied = p if verb == '%q' else z3.And(p, c < 0x80)
+    quoted2 = z3.Or(c == 34, c == 92)
+    short_ok = z3.Or(c == 8, c == 12, c == 10, c == 13, c == 9); short_bad = z3.Or(c == 7, c == 11)
+    hexx = z3.And(z3.Not(short_ok), z3.Not(short_bad), z3.Or(c < 0x20, c == 0x7f)); bigu = c > 0xFFFF
+    invalid = z3.And(z3.Not(quoted2), z3.Not(copied), z3.Or(short_bad, hexx, bigu))        # the \uXXXX rest and the copied / \" \\ cases are legal JSON
+    classes = [('json-escape-control-char', z3.Or(short_bad, hexx)), ('json-escape-nonprintable-above-bmp', z3.And(bigu, z3.Not(p))), ('json-escape-printable-above-bmp', z3.And(bigu, p))]
+    for key, cl in classes:
+        m, dt = e2.check(dom + [invalid, cl]); r.queries += 1; r.solver_s += dt
+        if m is None: continue
+        cv = e2.mval(m, c)
+        pref = {'json-escape-printable-above-bmp': 0x1F600, 'json-escape-nonprintable-above-bmp': 0xE0001}.get(key)      # witnesses whose printability is the same in Go's and Python's tables (emoji / LANGUAGE TAG)
+        if pref is not None:
+            m2, dt = e2.check(dom + [invalid, cl, c == pref]); r.queries += 1; r.solver_s += dt
+            if m2 is not None: cv = pref
+        ok_, detail = replay_json_escape(verb, cv)
+        r.findings.append(Finding(key, 'json_escape_string = fmt.Sprintf(%r, s): the character U+%04X is printed as %s, which is not a legal piece of a JSON string' % (verb, cv, go_quote_char(verb, cv, chr(cv).isprintable())), {'verb': verb, 'char': cv}, ok_, detail))
+    m, dt = e2.check(dom + [invalid] + [z3.Not(cl) for _, cl in classes]); r.queries += 1; r.solver_s += dt
+    if m is not None: r.findings.append(Finding('json-escape-other', 'unclassified illegal piece for U+%04X' % e2.mval(m, c), {}, False, 'not replayed'))
+    r.samples.append({'verb': verb})
+
+def go_quote_char(verb, cv, printable):
+    if cv in (34, 92): return '\\' + chr(cv)
+    if printable and (verb == '%q' or cv < 0x80): return chr(cv)
+    tab = {7: '\\a', 8: '\\b', 12: '\\f', 10: '\\n', 13: '\\r', 9: '\\t', 11: '\\v'}
+    if cv in tab: return tab[cv]
+    if cv < 0x20 or cv == 0x7f: return '\\x%02x' % cv
+    return ('\\U%08x' % cv) if cv > 0xFFFF else ('\\u%04x' % cv)
+
+def replay_json_escape(verb, cv):
+    src = '#[derive(ToJson)]\nstruct S { s: string }\nfn main() -> unit { string_println(S { s: "x" }.to_json()) }\n'
+    d = tempfile.mkdtemp(prefix='vf-c18j-')
+    try:
+        open(os.path.join(d, 'main.gom'), 'w').write(src)
+        out = subprocess.run([build.compiler_bin(), 'run', '--dump-go', os.path.join(d, 'main.gom')], capture_output=True, text=True, timeout=60).stdout
+    finally: shutil.rmtree(d, ignore_errors=True)
+    m_ = re.search(r'func json_escape_string\(s string\) string \{\s*return fmt\.Sprintf\("([^"]*)", s\)', out)
+    if not m_ or m_.group(1) != verb: return False, 'the emitted Go does not show fmt.Sprintf(%r, s) in json_escape_string: %s' % (verb, m_.group(0)[:120] if m_ else out[-200:])
+    piece = '"' + go_quote_char(verb, cv, chr(cv).isprintable()) + '"'
+    try: json.loads(piece); legal = True
+    except Exception: legal = False
+    return (not legal), 'the Go text emitted by the real CLI for a derive(ToJson) program defines json_escape_string as fmt.Sprintf("%s", s); by the reference semantics U+%04X is printed as %s, which Python\'s JSON parser %s' % (verb, cv, piece, 'accepts' if legal else 'rejects')
+
+_c18_obl3 = obligations
+def obligations():
+    return _c18_obl3() + [Ob('O18.3-json-escape', 'every character of a string leaf is printed by json_escape_string as a legal piece of a JSON string', ob_json_escape, ('quick', 'thorough'), 1, {})]
